@@ -30,6 +30,25 @@ CLAIMED = {
             "catching a far function (cryptographic) nor the algebra of folding (value-level).",
             "rustc nightly MIR; Python CFG/slice engine; value-level correctness of get_query_values/interpolate_batch/eval assumed",
             "DESIGN.md section 4, C09"),
+    "C11": ("compiler-evaluated constants + exact number theory (primality certificates, factorisation of M-1, element orders) and MIR guard analysis of every element decoder",
+            "Proves, from the constants the compiler evaluates on the current tree, that each modulus is prime (deterministic "
+            "Miller-Rabin / Lucas-Pratt certificate), MODULUS_BITS and TWO_ADICITY are right, the generator has order M-1, the "
+            "two-adic root and all its 2^k-th powers have the exact orders, Montgomery words/helper constants are what they "
+            "claim; and decides that every element decoder constructs an element only behind `value >= MODULUS => reject` or "
+            "delegates to such a decoder, little-endian only. Irreducibility of extension polynomials / Frobenius constants is "
+            "not decided (they live in arithmetic code).",
+            "rustc const evaluator; Python big-integer arithmetic; Sorenson-Webster bound for deterministic Miller-Rabin", "DESIGN.md section 4, C11"),
+    "C20": ("call-graph effect analysis (ambient inputs) + MIR provenance/guard rules on DefaultRandomCoin",
+            "Decides determinism structurally (no ambient input reachable; state is seed+counter), that draw_integers masks "
+            "next()-bytes with domain_size-1 behind a power-of-two assertion, pushes a value only while len != num_values and "
+            "rejects short draws (exact count for every request including 0), and that reseed/next/check_leading_zeros/draw "
+            "have the documented shapes. Statistical quality is not decided.",
+            "rustc MIR; effect table for std/core/rayon leaves; hash functions behave as functions", "DESIGN.md section 4, C20"),
+    "C25": ("MIR provenance of stored security values (cmp::min with the collision-resistance parameter) and must-pass-through guards per match arm of AcceptableOptions::validate",
+            "Proves for all inputs that stored conjectured/proven security values are results of cmp::min(_, collision_resistance) "
+            "(and conjectured = min(field_security, _) - 1), and decides that each validate arm accepts only behind "
+            "is_at_least(matching estimate, own threshold) or option-set membership. Monotonicity is value-level and not decided.",
+            "rustc MIR; core::cmp::min semantics", "DESIGN.md section 4, C25"),
 }
 
 NOT_APPLICABLE = {
